@@ -396,8 +396,12 @@ pub fn run_cli(root: &std::path::Path, cfg: &RunCfg) -> Option<i32> {
     c.stdin(std::process::Stdio::null())
         .stdout(std::process::Stdio::null())
         .stderr(std::process::Stdio::null());
-    let st = c.status().ok()?;
-    Some(st.code().unwrap_or(-1))
+    // Some(-9999) = the binary did not terminate within a minute
+    match status_with_timeout(&mut c, 60) {
+        Ok(Some(code)) => Some(code),
+        Ok(None) => Some(-9999),
+        Err(_) => None,
+    }
 }
 
 /// F8: turn the relative description of the size limit into bytes, from the sizes a reference
@@ -604,7 +608,13 @@ pub fn run(case: &Case, ctx: &mut Ctx) -> CaseOutcome {
         if let Some(code) = run_cli(&ctx.env.root, &last.cfg) {
             ctx.stats.count("c04.cli_runs");
             let lib_err = last.sim.verdict.is_err();
-            if lib_err && code == 0 {
+            if code == -9999 {
+                out.violate(
+                    "C04",
+                    "cli-hang",
+                    format!("[{cell}] the txtpp binary did not terminate within 60 s (library verdict {})", last.sim.verdict.short()),
+                );
+            } else if lib_err && code == 0 {
                 out.violate(
                     "C04",
                     "cli-exit-zero-on-failure",
